@@ -26,10 +26,18 @@ def filter_kwargs_conformance():
 
     def f_none(a, b):
         return ('none', a, b)
+    # callees that share a __name__ but not a signature (as onset.f_measure / beat.f_measure do)
+    def same_name_a(a, b, p=1):
+        return ('A', a, b, p)
+
+    def same_name_b(a, b, q=2):
+        return ('B', a, b, q)
+    same_name_b.__name__ = same_name_a.__name__ = 'same_name'
+    same_name_b.__qualname__ = same_name_a.__qualname__ = 'same_name'
     keys = ['p', 'q', 'zzz', 'kw']
     n = 0
     failures = []
-    for f in (f_plain, f_kwonly, f_star, f_none):
+    for f in (f_plain, f_kwonly, f_star, f_none, same_name_a, same_name_b, same_name_a):
         import inspect
         sig = inspect.signature(f)
         names = [k for k, p in sig.parameters.items() if p.kind in (p.POSITIONAL_ONLY, p.POSITIONAL_OR_KEYWORD)]
@@ -54,7 +62,7 @@ def run(tier, seed, results):
     out = []
     t0 = time.time()
     n, failures = filter_kwargs_conformance()
-    out.append(dict(name='util.filter_kwargs / has_kwargs conform to the contract E4 assumes', bound='4 callee shapes x all 16 subsets of 4 keyword names',
+    out.append(dict(name='util.filter_kwargs / has_kwargs conform to the contract E4 assumes', bound='6 callees (4 shapes, 2 sharing a __name__) x all 16 subsets of 4 keyword names, called in sequence in one process',
                     cases=n, exhaustive=True, failures=failures[:5], wall_s=round(time.time() - t0, 2)))
     if failures:
         results.append(dict(kind='engine', engine='bundles', name='util.filter_kwargs', status='ok', detail='', paths=0, inlined=[], used_contracts=[],
